@@ -193,7 +193,7 @@ def run_one(mod, tier, seed=None, values=None):
     sys.stderr = _DEVNULL    # hio writes parse errors to sys.stderr; never part of any digest
     limit = float(getattr(mod, "CASE_TIMEOUT", CASE_TIMEOUT))
     old_handler = signal.signal(signal.SIGALRM, _on_alarm)
-    signal.setitimer(signal.ITIMER_REAL, limit)
+    signal.setitimer(signal.ITIMER_REAL, limit, 5.0)     # repeats: cleanup after the first alarm may hang as well
     try:
         res = mod.run_case(tape, tier)
     except CaseTimeout:
@@ -529,7 +529,7 @@ def main_check(pid, tier, seed, cases=None, jobs=None, wall=None):
         print("HARNESS-ERROR property=%s determinism self-test failed: %s" % (pid, json.dumps(det)[:1500]))
         return 2
 
-    deadline = t0 + wall_budget
+    deadline = time.time() + wall_budget     # the budget is for the cases; the self-test above has its own
     agg = dict(evals=0, nontrivial=set(), events=set(), faults=Counter(), probes=Counter(),
                viol=[], known=Counter(), known_msg={}, sim_time=0.0, comparisons=0, samples=[],
                faultfree=0, faulted=0, steps=0, errors=[])
@@ -575,6 +575,8 @@ def main_check(pid, tier, seed, cases=None, jobs=None, wall=None):
 
     if agg["errors"]:
         harness_failed = "harness exception in case %d: %s" % agg["errors"][0]
+    if agg["evals"] == 0 and not harness_failed:
+        harness_failed = "no case was evaluated within the wall budget of %.0f s: nothing was checked" % wall_budget
     if triage:
         if harness_failed:
             print("TRIAGE-HARNESS-ERROR property=%s %s" % (pid, harness_failed[:300].replace("\n", " ")))
